@@ -11,7 +11,7 @@ from ..impl import Pen, Dfit, gen_matrix, compiled
 from ..blocks import Blk
 from . import est_common
 
-LEAN_MODULES = ["Skglm.Properties.C02"]
+LEAN_MODULES = ["Skglm.Properties.C02", "Skglm.Properties.FISTA", "Skglm.Properties.GramCD"]
 
 
 def obj_gap(rep, name, f_skglm, f_ref, tol_margin, sig, inp, extra=None):
